@@ -21,7 +21,7 @@ from cfdppy.filestore import NativeFilestore, VirtualFilestore
 from cfdppy.mib import DefaultFaultHandlerBase
 from cfdppy.user import CfdpUserBase
 
-from . import models
+from . import audit, models
 
 
 class Event(dict):
@@ -358,7 +358,8 @@ class RecFilestore(VirtualFilestore):
             raise exc
         self.in_call += 1
         try:
-            res = getattr(self.inner, op)(*args, **kw)
+            with audit.allow():  # the filestore object under test is the one place where host access is legitimate
+                res = getattr(self.inner, op)(*args, **kw)
         except BaseException as e:  # noqa: BLE001
             self.log.add("fs", self.side, outcome="raised:" + type(e).__name__, **info)
             raise
